@@ -5,12 +5,12 @@ SMALL = {"SpinlessFermions": 7, "Spin12": 7, "Spin1": 5, "SpinfulFermions": 4, "
 
 
 def build(seed, tier, prop, weights, nops=(8, 16), seed_ops=("m_random_mps", "m_random_mps", "m_random_mpo"), p_disturbed=0.5, Nmax=None, families=None,
-          lapack=True):
+          lapack=True, Nmin=1):
     rng = core.stream(seed, "programs")
     swarm = core.stream(seed, "swarm")
     fam = rng.choice(families or ["SpinlessFermions", "SpinlessFermions", "Spin12", "Spin12", "Spin1", "SpinfulFermions", "Qdit"])
     sym = rng.choice(e2.FAMILIES[fam])
-    N = rng.randint(1, min(SMALL[fam], Nmax or 7))
+    N = rng.randint(Nmin, max(Nmin, min(SMALL[fam] + (1 if Nmax and Nmax > 7 and SMALL[fam] == 7 else 0), Nmax or 7)))
     arm = "disturbed" if swarm.random() < p_disturbed else "baseline"
     cfg = {"family": fam, "sym": sym, "N": N, "qd": rng.choice([2, 3])}
     if arm == "disturbed":
